@@ -12,9 +12,9 @@ import (
 
 func init() {
 	register(&PropSpec{
-		ID: "C13",
-		Explanation: "Structural necessary conditions for 'transports keep message boundaries, bytes and order'. F1: in the QUIC and WebTransport transports the length prefix written (width, byte order, value = payload length, prefix before payload) is the one read (same width and order, payload buffer sized by it), and both sides count prefix + payload bytes. F2: every Transport.Write holds one mutex of the transport across all writes of a message (prefix and payload; per-message writer from acquisition to Close), and the error of the per-message writer's Close reaches Write's result. F3: in every branch of the compression-mode selection both the encode and the decode slot are assigned and they are of the same class (identity / per-message flate / context takeover). F4: the write side and the read side trim their dictionaries with the same rule. F5: the compression configuration comes only from the negotiated parameters.",
-		NotDecided: []string{"byte-for-byte fidelity", "interoperability with an independent decoder", "behaviour of compress/flate and of the websocket libraries", "counters under concurrency"},
+		ID:              "C13",
+		Explanation:     "Structural necessary conditions for 'transports keep message boundaries, bytes and order'. F1: in the QUIC and WebTransport transports the length prefix written (width, byte order, value = payload length, prefix before payload) is the one read (same width and order, payload buffer sized by it), and both sides count prefix + payload bytes. F2: every Transport.Write holds one mutex of the transport across all writes of a message (prefix and payload; per-message writer from acquisition to Close), and the error of the per-message writer's Close reaches Write's result. F3: in every branch of the compression-mode selection both the encode and the decode slot are assigned and they are of the same class (identity / per-message flate / context takeover). F4: the write side and the read side trim their dictionaries with the same rule. F5: the compression configuration comes only from the negotiated parameters.",
+		NotDecided:      []string{"byte-for-byte fidelity", "interoperability with an independent decoder", "behaviour of compress/flate and of the websocket libraries", "counters under concurrency"},
 		ThoroughConfigs: nil,
 		Rules: func(r *Run) {
 			le := newLockEngine(r.P)
@@ -25,6 +25,7 @@ func init() {
 			ruleC13F5(r)
 			rulePoolReset(r, "F6")
 			ruleC13F7(r)
+			ruleLoopDrivers(r, "F8", "the scheduler poll stays periodic: in package transport/multi every receive inside a loop from a time source is a Ticker, a time.After, or a Timer that is re-armed inside the loop when its branch continues the loop", func(fn *ssa.Function) bool { return fnPkgPath(fn) == modPath+"/transport/multi" }, 1)
 		},
 	})
 }
@@ -412,8 +413,8 @@ func ruleC13F4(r *Run) {
 	// the dictionary handed to flate is the window buffer; the bytes appended to it are the uncompressed message
 	okDict := true
 	for _, x := range []struct {
-		fn         *ssa.Function
-		ctor, fld  string
+		fn        *ssa.Function
+		ctor, fld string
 	}{{enc, "compress/flate.NewWriterDict", "/transport/websocket.Transport.writeWindowBuf"}, {dec, "compress/flate.NewReaderDict", "/transport/websocket.Transport.readWindowBuf"}} {
 		cs := findCalls(x.fn, false, x.ctor)
 		if len(cs) != 1 {
